@@ -84,6 +84,19 @@ def inOptsOf (d : List (Str × OptVal)) : Option InOpts :=
            disco := (optLookup d "disco".toList).any optTruthy, discoReordered := has "disco_reordered" }
   | _, _ => none
 
+/-- `--dest-opts`: the writers and `trees.get_label` test the presence of their keys; the separator is
+    `str(params['gf_separator'])` - a number is printed in decimal, a bare key is the text `True` -/
+def outOptsOf (d : List (Str × OptVal)) : OutOpts :=
+  let has := fun (k : String) => (optLookup d k.toList).isSome
+  { gf := has "gf", gfTerminals := has "gf_terminals", markHeads := has "mark_heads_marking",
+    gfSeparator := (optLookup d "gf_separator".toList).map fun
+      | .str s => s
+      | .int n => natToStr n
+      | .flag => "True".toList,
+    splitMarking := has "boyd_split_marking", splitNumbering := has "boyd_split_numbering",
+    emptyRoot := has "brackets_emptyroot", skipDisco := has "brackets_skipdisco", exportFour := has "export_four",
+    terminalsOne := has "terminals_one", terminalsPos := has "terminals_pos", posOnly := has "pos_only" }
+
 /-- the reader named by the format on the content of the file, with the words of `--src-opts` -/
 def readSrcWords (words : List Str) (src : Source) : Option (Except Err (List (Nat × Tree))) :=
   (inOptsOf (optionsDict words)).map fun io => readSrc io src
@@ -96,5 +109,10 @@ def runAnalysisWords (task : AnalysisTask) (words : List Str) (src : Source) : O
 def runWords (steps : List Step) (fmt : DestFmt) (o : OutOpts) (enc : Option Str) (words : List Str) (src : Source) :
     Option (Except Err Str) :=
   (readSrcWords words src).map (runFrom steps fmt o enc)
+
+/-- `treetools transform SRC DEST --src-format F --src-opts sw... --dest-format G --dest-opts dw...` -/
+def runWords2 (steps : List Step) (fmt : DestFmt) (dwords : List Str) (enc : Option Str) (swords : List Str)
+    (src : Source) : Option (Except Err Str) :=
+  runWords steps fmt (outOptsOf (optionsDict dwords)) enc swords src
 
 end TT
